@@ -101,7 +101,7 @@ func (g *cgraph) definePhi(ph *ssa.Phi, key string, depth int) {
 		if bo, ok := v.(*ssa.BinOp); ok && bo.Op == token.ADD {
 			// self + (value that is non-negative by its type)
 			for _, pr := range [][2]ssa.Value{{bo.X, bo.Y}, {bo.Y, bo.X}} {
-				if nonNegByType(pr[1]) {
+				if nonNegByType(pr[1]) || isReadCount(pr[1]) != nil {
 					if lo, _, ok := selfOnly(pr[0], seen); ok {
 						return lo, infW, true
 					}
@@ -177,6 +177,9 @@ func (g *cgraph) definePhi(ph *ssa.Phi, key string, depth int) {
 		g.guardedUpperBound(ph, key, func() bool {
 			return true
 		})
+	}
+	if up {
+		g.fillBound(ph, key)
 	}
 	if down {
 		g.reverseScanBound(ph, key)
@@ -932,4 +935,83 @@ func reMinLen(re *syntax.Regexp) int64 {
 		return int64(re.Min) * reMinLen(re.Sub[0])
 	}
 	return 0
+}
+
+// isReadCount: v is the count result of a Read-like call (0 ≤ count ≤ len(buffer) by the io.Reader
+// contract): the call, nil otherwise.
+func isReadCount(v ssa.Value) *ssa.Call {
+	ex, ok := v.(*ssa.Extract)
+	if !ok || ex.Index != 0 {
+		return nil
+	}
+	c, ok := ex.Tuple.(*ssa.Call)
+	if !ok {
+		return nil
+	}
+	if isRawReadCall(&c.Call) {
+		return c
+	}
+	switch calleeName(&c.Call) {
+	case "(*os.File).Read", "(*bufio.Reader).Read", "(*bytes.Reader).Read", "(*strings.Reader).Read", "(*bytes.Buffer).Read":
+		return c
+	}
+	return nil
+}
+
+// fillBound: ph = phi(init, ph + m) where m is the count of a Read into buf[ph:]: the count is at
+// most len(buf) − ph, so ph ≤ len(buf) is preserved; with init ≤ len(buf) it holds at the header.
+func (g *cgraph) fillBound(ph *ssa.Phi, key string) {
+	a := g.a
+	hdr := ph.Block()
+	var buf ssa.Value
+	var inits []ssa.Value
+	for i, e := range ph.Edges {
+		if !hdr.Dominates(hdr.Preds[i]) {
+			inits = append(inits, e)
+			continue
+		}
+		bo, ok := e.(*ssa.BinOp)
+		if !ok || bo.Op != token.ADD {
+			return
+		}
+		var cnt ssa.Value
+		switch {
+		case bo.X == ssa.Value(ph):
+			cnt = bo.Y
+		case bo.Y == ssa.Value(ph):
+			cnt = bo.X
+		default:
+			return
+		}
+		call := isReadCount(cnt)
+		if call == nil {
+			return
+		}
+		args := call.Call.Args
+		bufArg := args[len(args)-1]
+		sl, ok := bufArg.(*ssa.Slice)
+		if !ok || sl.Low != ssa.Value(ph) || sl.High != nil {
+			return
+		}
+		if buf != nil && buf != sl.X {
+			return
+		}
+		buf = sl.X
+	}
+	if buf == nil || len(inits) == 0 {
+		return
+	}
+	g.defineLen(buf, 2)
+	lt := "len(" + a.regKey(buf) + ")"
+	for _, in := range inits {
+		t, k, ok := a.intTerm(in)
+		if !ok {
+			return
+		}
+		g.define(in, 3)
+		if !g.proveLE(t, k, lt, 0) {
+			return
+		}
+	}
+	g.le(key, lt, 0)
 }
